@@ -95,5 +95,7 @@ def run(F, tier, res):
                     r[0] == 'param' and r[2] and r[2][-1] == 'line' for a in c['args'][:2] for r in F.trace(p, a)):
                 m += 1
     res.rule('C08.LINE-PREDICATES', m, 15, 'marker / regex predicates in state-machine methods whose subject is the stripped `line`')
+    from ._ansi import accounting_rule
+    accounting_rule(F, res, 'C08')
     res.distinct.update(r['rule'] for r in res.rules)
     return res
